@@ -284,6 +284,7 @@ def explore(ctx, n_nets, n_numba):
             net = hgen.build(spec)
             r = c10.run_pipeflow(net, mode, numba)
             ctx.count("pipeflow_%s_%s" % (mode, r))
+            c10.report_unexpected(ctx, spec, mode, numba, r)
             if r != "ok":
                 continue
             conv += 1
